@@ -290,8 +290,10 @@ impl Gatekeeper {
             // Give back the consumed slots to each user.
             for uuid in appointments.iter() {
                 let (user_id, blob_size) = dbm.get_appointment_user_and_length(*uuid).unwrap();
-                registered_users.get_mut(&user_id).unwrap().available_slots +=
-                    compute_appointment_slots(blob_size, ENCRYPTED_BLOB_MAX_SIZE);
+                // Renewals fill `available_slots` up to `u32::MAX` without counting the slots in use, so the refund saturates.
+                let slots = compute_appointment_slots(blob_size, ENCRYPTED_BLOB_MAX_SIZE);
+                let user_info = registered_users.get_mut(&user_id).unwrap();
+                user_info.available_slots = user_info.available_slots.saturating_add(slots);
                 updated_users.insert(user_id, registered_users[&user_id]);
             }
             updated_users
